@@ -19,6 +19,24 @@ func (this *RaftTransport) VerifSetClient(nodeId uint64, c pb.RaftTransportClien
 	this.nodeClientsMu.Lock()
 	defer this.nodeClientsMu.Unlock()
 	this.nodeClients[nodeId] = c
+	verifInjectedMu.Lock()
+	verifInjectedClients[verifInjectedKey{this, nodeId}] = true
+	verifInjectedMu.Unlock()
+}
+
+type verifInjectedKey struct {
+	t  *RaftTransport
+	id uint64
+}
+
+var verifInjectedMu sync.Mutex
+var verifInjectedClients = map[verifInjectedKey]bool{}
+
+// verifInjected: the client cached for this peer is an in-memory one of the harness and stays.
+func (this *RaftTransport) verifInjected(nodeId uint64) bool {
+	verifInjectedMu.Lock()
+	defer verifInjectedMu.Unlock()
+	return verifInjectedClients[verifInjectedKey{this, nodeId}]
 }
 
 // VerifCampaign makes this replica start an election now (instead of waiting for ticks).
